@@ -17,6 +17,7 @@ import (
 	"strconv"
 	"strings"
 	"sync"
+	"sync/atomic"
 	"time"
 )
 
@@ -43,6 +44,7 @@ type Result struct {
 	Out     json.RawMessage  `json:"out,omitempty"`
 	Sample  string           `json:"s,omitempty"`
 	Died    bool             `json:"died,omitempty"`
+	Hung    bool             `json:"hung,omitempty"`
 	DiedMsg string           `json:"diedmsg,omitempty"`
 }
 
@@ -178,6 +180,9 @@ type Ctx struct {
 	knownHit map[string]int
 	viol     []Violation
 	violSeen map[string]bool
+	// CaseTimeout: a worker that reports nothing for this long is killed and the case it
+	// announced is marked Died with Hung=true (a watchdog, never an oracle by itself).
+	CaseTimeout time.Duration
 	// DeathIsViolation: a worker dying on a case counts as a violation
 	// (sig "worker-died") unless the check handles Died itself.
 	mu sync.Mutex
@@ -271,7 +276,15 @@ func (c *Ctx) runWorker(cf string, shard, n, start int, res []Result) (lastBegun
 	begun, finished := -1, -1
 	sc := bufio.NewScanner(stdout)
 	sc.Buffer(make([]byte, 1<<20), 1<<28)
+	to := c.CaseTimeout
+	if to == 0 {
+		to = 10 * time.Minute
+	}
+	var hung atomic.Bool
+	wd := time.AfterFunc(to, func() { hung.Store(true); cmd.Process.Kill() })
+	defer wd.Stop()
 	for sc.Scan() {
+		wd.Reset(to)
 		line := sc.Text()
 		switch {
 		case strings.HasPrefix(line, "B "):
@@ -291,7 +304,10 @@ func (c *Ctx) runWorker(cf string, shard, n, start int, res []Result) (lastBegun
 		return begun, true
 	}
 	if begun >= 0 && begun != finished {
-		res[begun] = Result{Idx: begun, Died: true, DiedMsg: fmt.Sprintf("%v: %s", err, errbuf.String())}
+		res[begun] = Result{Idx: begun, Died: true, Hung: hung.Load(), DiedMsg: fmt.Sprintf("%v: %s", err, errbuf.String())}
+		if hung.Load() {
+			res[begun].DiedMsg = fmt.Sprintf("watchdog: no progress for %v; stderr tail: %s", to, errbuf.String())
+		}
 		return begun, false
 	}
 	// died outside of any case: harness error
